@@ -115,7 +115,7 @@ def gen_sched(rng, n):
 
 
 def mk(enc, data, buf, sched, expect, note, via='func', maxb=None, payload=None, cl=None, te=None, conf='ctor',
-       ctype=None, pre=(), emap=None):
+       ctype=None, pre=(), emap=None, debug=False, accept=None):
     c = dict(kind='dec', data=list(data), buf=buf, sched=sched, maxb=maxb, via=via, expect=expect, note=note,
              nchunks=enc['nchunks'] if enc else 0)
     if via == 'wsgi':
@@ -127,6 +127,10 @@ def mk(enc, data, buf, sched, expect, note, via='func', maxb=None, payload=None,
         c['pre'] = list(pre)
         if emap is not None:
             c['emap'] = emap
+        if debug:
+            c['debug'] = True
+        if accept:
+            c['accept'] = accept
         assert conf != 'setup_default' or (buf == DEFAULT_MEMFILE and maxb is None)
     if expect == 'exact':
         c['payload'] = list(enc['payload'] if payload is None else payload)
@@ -182,7 +186,8 @@ def expected_status(emap, k):
 
 
 from props.bodyA_shared import TE_CHUNKED, TE_OTHER  # noqa: E402  (shared with C13)
-PRE_OPS = ['partial', 'copy', 'copy_after', 'second', 'chunked_prop']
+PRE_OPS = ['partial', 'copy', 'copy_after', 'second', 'chunked_prop', 'set_ctype', 'set_ctype2', 'set_cl', 'set_te',
+           'set_other', 'again']
 
 
 def spell_cl(rng, n):
@@ -205,6 +210,10 @@ def gen_wsgi(rng, enc, data, buf, sched, conf, plain=False):
         hdr['ctype'] = rng.choice(['text', 'json', 'mp', 'mp', 'MP', 'mp_nob', 'mp_q'])
     if enc.get('mp_form'):
         hdr['ctype'] = 'mp'
+    if rng.random() < 0.3 and conf != 'setup_default':
+        hdr['debug'] = True                       # error pages in their debug flavour ...
+    if rng.random() < 0.2:
+        hdr['accept'] = 'application/json'        # ... HTML (default) or JSON
     if rng.random() < 0.2 and conf != 'setup_default':
         hdr['emap'] = rng.choice(EMAPS)             # an application-supplied errors_map
     if rng.random() < 0.3:
@@ -248,6 +257,7 @@ def gen_seq(rng):
         if maxb is not None:
             it['expect'] = 'any'
         it.pop('emap', None)
+        it.pop('debug', None)
         if emap is not None:
             it['emap'] = emap
         it['app'] = k
@@ -413,6 +423,20 @@ def corpus():
         it['app'] = app_i
         seq_items.append(it)
     out.append(dict(kind='seq', apps=[['ctor', 8, None, None], ['setup', 8, 5, None]], items=seq_items))
+    # round 8: debug=True error pages (HTML and JSON) for cut / garbled chunked bodies: still a client error
+    for d_, note_ in ((trunc, 'prefix'), (b'3\r\nabcXX0\r\n\r\n', 'badterm'), (b'', 'prefix'), (b'zz\r\n', 'prefix')):
+        for acc in (None, 'application/json'):
+            for conf in ('ctor', 'setup'):
+                out.append(mk(dict(nchunks=1), d_, 8, [], 'reject' if d_ != b'zz\r\n' else 'any', note_ if d_ != b'zz\r\n' else 'subst',
+                              'wsgi', debug=True, accept=acc, conf=conf))
+    out.append(mk(dict(nchunks=1, payload=b'abcdefgh'), legal, 8, [], 'exact', 'legal', 'wsgi', debug=True))
+    # round 8: read, rewrite a header through Request.__setitem__, read again — also after a FAILED read (fix F43)
+    for op in ('set_ctype', 'set_ctype2', 'set_cl', 'set_te', 'set_other', 'again'):
+        out.append(mk(dict(nchunks=1, payload=b'abcdefgh'), legal, 8, [2] * 20, 'exact', 'legal', 'wsgi', pre=[op]))
+        out.append(mk(dict(nchunks=1, payload=b'3\r\nabc\r\n0\r\n\r\n'), b'd\r\n3\r\nabc\r\n0\r\n\r\n\r\n0\r\n\r\n', 8, [], 'exact', 'legal',
+                      'wsgi', pre=[op]))                    # a payload that is itself a chunked encoding
+        out.append(mk(dict(nchunks=1), trunc, 8, [], 'reject', 'prefix', 'wsgi', pre=[op]))
+        out.append(mk(dict(nchunks=1), b'8\r\nabcdefgh\r\n0\r\n\r\n'[:7] , 8, [], 'reject', 'prefix', 'wsgi', pre=[op, 'set_ctype']))
     # round 5: size lines of 65..300 bytes (long extension, long run of leading zeros) under a larger buffer
     sig = b';chunk-signature=' + b'0123456789abcdef' * 4
     longs = [b'8' + sig + b'\r\nabcdefgh\r\n0' + sig + b'\r\n\r\n',
@@ -485,7 +509,7 @@ DEFAULT_MEMFILE = 100 * 1024
 CONFS = ('ctor', 'setup', 'setup_over', 'kw', 'kw_split', 'kw_setup', 'kw_only', 'setup_default')
 
 
-def make_app(conf, buf, maxb, emap=None):
+def make_app(conf, buf, maxb, emap=None, debug=False):
     """the application configured the ways the API offers: through the constructor, through
     app.setup(config) on a default app, through setup() overriding constructor values, and through a bare
     setup() (all defaults: max_memfile_size 100 KiB, no max_body_size)"""
@@ -493,6 +517,8 @@ def make_app(conf, buf, maxb, emap=None):
     cfg = dict(max_memfile_size=buf, max_body_size=maxb)
     if emap is not None:
         cfg['errors_map'] = build_errors_map(emap)
+    if debug:
+        cfg['debug'] = True                     # the debug flavour of the HTML / JSON error page
     if conf != 'setup_default':
         from props.bodyA_shared import build_app
         return build_app(conf, cfg)
@@ -522,17 +548,34 @@ def run_impl(case):
         spilled = not isinstance(body, BytesIO)
         body.seek(0)
         return dict(status='ok', body=list(body.read()), spilled=spilled, reqs=st.log, pos=st.pos)
-    app, holder = app_with_handler(case.get('conf', 'ctor'), case['buf'], case['maxb'], case.get('emap'))
+    app, holder = app_with_handler(case.get('conf', 'ctor'), case['buf'], case['maxb'], case.get('emap'),
+                                   bool(case.get('debug')))
     return call_wsgi(app, holder, case, st)
 
 
-def app_with_handler(conf, buf, maxb, emap=None):
+def rewrite(rq, op):
+    """header rewrites through Request.__setitem__ that leave the (already buffered) body alone"""
+    if op == 'set_ctype':
+        rq['CONTENT_TYPE'] = 'multipart/form-data; boundary=QQ'
+    elif op == 'set_ctype2':
+        rq['CONTENT_TYPE'] = 'application/json'
+    elif op == 'set_cl':
+        rq['CONTENT_LENGTH'] = '1'
+    elif op == 'set_te':
+        rq['HTTP_TRANSFER_ENCODING'] = 'identity'
+    elif op == 'set_other':
+        rq['HTTP_X_ANYTHING'] = 'v'
+        rq['QUERY_STRING'] = 'a=1'
+
+
+def app_with_handler(conf, buf, maxb, emap=None, debug=False):
     """an application with the echo route; [holder] carries the per-request inputs / observations of the
     handler, so that ONE application object can serve a whole sequence of cases"""
-    app = make_app(conf, buf, maxb, emap)
+    app = make_app(conf, buf, maxb, emap, debug)
     holder = {}
 
     def handler():
+        from ombott import HTTPError
         case, seen, st = holder['case'], holder['seen'], holder['stream']
         rq = app.request
         for op in case.get('pre', ()):
@@ -548,10 +591,29 @@ def app_with_handler(conf, buf, maxb, emap=None):
                 rq = Request(rq.environ, config=app.config)
             elif op == 'chunked_prop':          # the public properties themselves
                 seen['props'] = [rq.chunked, rq.content_length]
-        b = rq.body
+        rewrites = [op for op in case.get('pre', ()) if op.startswith('set_')]
+        try:
+            b = rq.body
+        except HTTPError as e1:
+            # a failed read is final (fix F43): after any header rewrite through Request.__setitem__ the next
+            # access fails the same way and reads nothing more from the stream
+            n_reads = len(st.log)
+            for op in rewrites:
+                rewrite(rq, op)
+            if rewrites or 'again' in case.get('pre', ()):
+                try:
+                    rq.body
+                    seen['second_read_succeeded'] = True
+                except HTTPError as e2:
+                    seen['second_read_other'] = (e2.status_code != e1.status_code) or len(st.log) != n_reads
+            raise e1
         seen['spilled'] = not isinstance(b, BytesIO)
         c1 = b.read()
         n_reads = len(st.log)
+        for op in rewrites:                     # read, rewrite a header through Request.__setitem__, read again
+            rewrite(rq, op)
+        if rewrites and rq.body.read() != c1:
+            seen['rewrite_changed_body'] = True
         # the application's own request object sees the same cached body — unless the observing request is a
         # copy made BEFORE the body was buffered: copy() is shallow, both would share one unread stream and only
         # one of them can consume it (as in bottle); then only the copy is observed
@@ -583,6 +645,8 @@ def call_wsgi(app, holder, case, st):
         env['CONTENT_LENGTH'] = cl_text(case['cl'])
     if CTYPES[case.get('ctype')] is not None:
         env['CONTENT_TYPE'] = CTYPES[case['ctype']]
+    if case.get('accept'):
+        env['HTTP_ACCEPT'] = case['accept']       # JSON or HTML flavour of the error page
     out = {}
 
     def start_response(status, headers, exc_info=None):
@@ -591,7 +655,12 @@ def call_wsgi(app, holder, case, st):
     code = int(out['status'].split()[0])
     if env['wsgi.errors'].getvalue():
         return dict(status='traceback_on_wsgi_errors', code=code)
+    if seen.get('second_read_succeeded') or seen.get('second_read_other'):
+        return dict(status='unstable', why='after a failed read and a header rewrite the next access %s' % (
+            'succeeded' if seen.get('second_read_succeeded') else 'failed differently or read on'))
     if code == 200:
+        if seen.get('rewrite_changed_body'):
+            return dict(status='unstable', why='the body changed after a header rewrite')
         if not seen.get('stable'):
             return dict(status='unstable')
         return dict(status='ok', body=list(content), spilled=seen['spilled'], reqs=st.log, pos=st.pos)
@@ -856,6 +925,11 @@ API_SURFACE = [
     ('Request.copy() before the body is read', 'covered by pre op copy (observed through the copy only); excluded: reading through '
                                                'the copy AND the original — copy() is shallow, both share one unread stream '
                                                '(same as bottle), the second reader finds it consumed'),
+    ('config debug + error page flavour (HTML default / JSON via Accept)', 'covered by debug / accept on reject cases: the status '
+                                                                           'class must stay 4xx'),
+    ('Request.__setitem__ (CONTENT_TYPE, CONTENT_LENGTH, HTTP_*, QUERY_STRING) between two body accesses', 'covered by pre ops '
+     'set_*: same body after the rewrite; after a FAILED read the next access fails the same way and reads nothing (F43); '
+     "excluded: rewriting 'wsgi.input' itself — that replaces the body by design"),
     ('environ CONTENT_TYPE', 'covered by ctype None/text/json/multipart/Multipart/empty boundary/boundary with ;  — the body '
                              'bytes do not depend on it; excluded: boundary containing CR (InvalidBoundaryError -> 400, C12)'),
     ("environ['wsgi.input'] missing", 'excluded: not a valid WSGI environ (KeyError)'),
